@@ -18,8 +18,8 @@ ID = "C05"
 CASES = {"quick": 3000, "thorough": 30000}
 FLOOR = {"quick": 2200, "thorough": 22000}
 FLOOR_COUNTERS = {
-    "quick": {"plumbing_pairs": 1000, "heldout_scores_judged": 900, "pcovr_equivalences": 90, "kpca_limits": 300, "heldout_size_gt_n": 150, "heldout_size_1": 100},
-    "thorough": {"plumbing_pairs": 14000, "heldout_scores_judged": 12000, "pcovr_equivalences": 600, "kpca_limits": 4000, "heldout_size_gt_n": 2000, "heldout_size_1": 1500},
+    "quick": {"plumbing_pairs": 1000, "heldout_scores_judged": 900, "pcovr_equivalences": 90, "kpca_limits": 300, "heldout_size_gt_n": 150, "heldout_size_1": 100, "estimators_with_a_past": 300},
+    "thorough": {"plumbing_pairs": 14000, "heldout_scores_judged": 12000, "pcovr_equivalences": 600, "kpca_limits": 4000, "heldout_size_gt_n": 2000, "heldout_size_1": 1500, "estimators_with_a_past": 3500},
 }
 RULE = (
     "case = X, Y (1-D/2-D), kernel in {linear, rbf, poly, sigmoid(small gamma), cosine} with gamma/degree/coef0, center, "
@@ -72,6 +72,8 @@ def gen(rng, tier, index):
         "k": int(rng.integers(1, min(n - 1, 5) + 1)),
         "reg": gens.pick(rng, ("none", "krr", "krr", "krr_fitted", "precomputed")),
         "alpha": float(10.0 ** rng.uniform(-3, 0)),
+        "past": bool(rng.random() < 0.3),  # the estimator object was configured and fitted differently before
+        "Xd": rng.normal(size=(int(rng.integers(5, hi)), f)),
     }
 
 
@@ -150,6 +152,17 @@ def run(case, j):
         fit_kw = {"W": W}
 
     est_a = _make(case, kern, center, reg_a)
+    if case.get("past") and regk in ("none", "krr"):
+        # earlier history of the same object: the opposite centring, another mixing, other data
+        est_a.set_params(center=not center, mixing=0.5 if a != 0.5 else 0.8)
+        Xd = case["Xd"]
+        Yd = np.tanh(Xd[:, :1]) if np.ndim(Y) == 2 else np.tanh(Xd[:, 0])
+        if np.ndim(Y) == 2 and Y.shape[1] > 1:
+            Yd = np.tanh(Xd[:, : Y.shape[1]]) if Xd.shape[1] >= Y.shape[1] else np.repeat(Yd, Y.shape[1], axis=1)
+        j.lib("fit:earlier-history", est_a.fit, Xd, Yd)
+        est_a.transform(Xd[:2])
+        est_a.set_params(center=center, mixing=a)
+        j.note("estimators_with_a_past")
     j.lib("fit:named", est_a.fit, X, fit_Y, **fit_kw)
 
     # ---- (v) any number of new samples: shapes
